@@ -852,6 +852,8 @@ def bisect_find_sha(
       unpack_name: Callback to retrieve SHA by index
     Returns: Index of the SHA, or None if it wasn't found
     """
+    if len(sha) not in (20, 32):
+        raise ValueError("Sha must be 20 (SHA1) or 32 (SHA256) bytes long")
     assert start <= end
     while start <= end:
         i = (start + end) // 2
